@@ -413,7 +413,15 @@ def rebuild(kind, n, witness):
     return u
 
 
-def execute(kind, n, witness, op, pre=None, raise_at=(), persist=None, snap=False, reenter=None):
+def _depth():
+    d, f = 0, sys._getframe()
+    while f is not None:
+        d += 1
+        f = f.f_back
+    return d
+
+
+def execute(kind, n, witness, op, pre=None, raise_at=(), persist=None, snap=False, reenter=None, stack_budget=None):
     u = rebuild(kind, n, witness)
     ex = Exec()
     ex.kind, ex.n, ex.op, ex.raise_at, ex.persist, ex.u = kind, n, op, tuple(raise_at), persist, u
@@ -425,9 +433,17 @@ def execute(kind, n, witness, op, pre=None, raise_at=(), persist=None, snap=Fals
     u.arm(raise_at, persist, snap, reenter)
     ex.exc = None
     ex.mro = ()
+    old_limit = sys.getrecursionlimit()
     try:
         with core.time_limit(1.0 if _CALL_TIMEOUTS[0] < 3 else 0.2):
-            u.apply(op)
+            if stack_budget is not None:
+                # resource fault: only `stack_budget` more frames are available to the call (RecursionError may strike
+                # at any call inside the library - between two statements that belong together, for instance)
+                sys.setrecursionlimit(_depth() + stack_budget)
+            try:
+                u.apply(op)
+            finally:
+                sys.setrecursionlimit(old_limit)
         ex.outcome = "ok"
     except (Exception, core.CaseTimeout) as exc:  # noqa - everything the call raises is an observation
         if isinstance(exc, core.CaseTimeout):
@@ -593,7 +609,7 @@ def probe_initial(kind, n, hidden):
 # Fault-plan enumeration for one (state, op): default run, then deviations up to d, then persistent
 
 
-def runs(kind, n, witness, pre, op, d=0, persistent=(), snap=False, want=None, reenter_menu=None):
+def runs(kind, n, witness, pre, op, d=0, persistent=(), snap=False, want=None, reenter_menu=None, stack_budgets=None):
     """Yield Exec objects: the fault-free run, all runs with <= d one-shot hook exceptions (each
     deviation chosen among the hook invocations of the run it extends), and the persistent runs.
     `want(hookname, position)` may restrict which hooks are eligible as the FIRST deviation."""
@@ -620,6 +636,13 @@ def runs(kind, n, witness, pre, op, d=0, persistent=(), snap=False, want=None, r
         if rec[0] in persistent:
             ex = execute(kind, n, witness, op, pre, persist=(rec[0], rec[1], i), snap=snap)
             yield ex
+    if stack_budgets:
+        for k in stack_budgets:
+            ex = execute(kind, n, witness, op, pre, snap=snap, stack_budget=k)
+            ex.raise_at = ("stack", k)
+            yield ex
+            if ex.outcome == "ok" and k > 8:
+                break  # enough stack for the whole call: larger budgets behave the same
     if reenter_menu:
         # a hook that itself issues a structural call (here: detaches some node) at invocation i
         for i in range(len(ex0.log)):
@@ -718,8 +741,9 @@ def case_of(ex, witness, why=None):
         "n": ex.n,
         "witness": [list(w) for w in witness],
         "op": list(ex.op),
-        "raise_at": list(ex.raise_at) if not (ex.raise_at and ex.raise_at[0] == "reenter") else [],
+        "raise_at": list(ex.raise_at) if not (ex.raise_at and ex.raise_at[0] in ("reenter", "stack")) else [],
         "reenter": list(ex.raise_at) if (ex.raise_at and ex.raise_at[0] == "reenter") else None,
+        "stack_budget": ex.raise_at[1] if (ex.raise_at and ex.raise_at[0] == "stack") else None,
         "persistent": list(ex.persist) if ex.persist else None,
         "pre": fmt_state(ex.pre, ex.labels[: len(ex.pre)]) if ex.pre is not None else None,
         "observed": {
